@@ -5,8 +5,8 @@ V = os.path.dirname(os.path.dirname(os.path.abspath(__file__)))
 
 CLAIMS = {
  "C20": dict(
-    text="Coq theorems: the scheduler queue model (Item::cmp + epoch counter) refines, for every insert/pull/peek sequence, the specification 'first entry among those with the least key' (c20_pq_min_stable, c20_pq_spec_meaning). Model tied to the current source by running the verbatim mirrored priority_queue.rs / indexed_priority_queue.rs and the extracted model on the same operation sequences (exhaustive to a length bound + random + stale-key reuse), plus a reference oracle written from the property text.",
-    note="Trusted: Coq kernel, ExtrOcamlBasic extraction, OCaml driver, Python generators; std BinaryHeap modelled as 'pop returns the Ord-maximum'; epoch overflow excluded. IndexedPriorityQueue: see evidence 'parts.ipq' (model/proof status stated there).",
+    text="Coq theorems: the scheduler queue model (Item::cmp + epoch counter) refines, for every insert/pull/peek sequence, the specification 'first entry among those with the least key' (c20_pq_min_stable, c20_pq_spec_meaning); the keyed queue model - the actual algorithm of indexed_priority_queue.rs: array heap cross-indexed with a slab, free list, epochs, sift_up/sift_down - never fails an indexing operation and refines, for every insert/pull/peek/peek_key/len/extract sequence, the list-with-epochs specification (c20_ipq_refines, by a heap-order + cross-index + free-list + unique-epoch invariant), in which the key of the n-th insertion designates exactly the entry that insertion created, slot re-use included (c20_ipq_key_designates_its_entry, c20_ipq_entries_origin) and pull yields the least key, earliest insertion first (c20_ipq_pull_least_first). Models tied to the current source by running the verbatim mirrored priority_queue.rs / indexed_priority_queue.rs and the extracted model on the same operation sequences (exhaustive to a length bound + random + stale-key reuse), plus a reference oracle written from the property text.",
+    note="Trusted: Coq kernel, ExtrOcamlBasic extraction, OCaml driver, Python generators; std BinaryHeap modelled as 'pop returns the Ord-maximum'; epoch overflow excluded.",
     technique="Coq proof (refinement by invariant over op sequences) + differential op-sequence correspondence against mirrored source",
     ref="DESIGN.md §5 C20, §4.1"),
  "C17": dict(
